@@ -209,6 +209,25 @@ func main() {
 		}
 		output.Functions = append(output.Functions, rep)
 	}
+	// lemmas: closed facts about spec functions
+	for _, d := range cs.Decls {
+		if d.Kind != "lemma" {
+			continue
+		}
+		if len(want) > 0 && !intersects(d.Props, want) {
+			continue
+		}
+		if *fnFilter != "" && !strings.Contains("lemma:"+d.Text, *fnFilter) {
+			continue
+		}
+		o, err := g.lemmaObligation(d)
+		if err != nil {
+			output.Errors = append(output.Errors, fmt.Sprintf("%s: lemma: %v", d.Pos, err))
+			output.Obligations = append(output.Obligations, &Obligation{Name: "lemma/" + d.Pos, Fn: "lemma", Kind: "vcgen", Props: d.Props, Backend: "static", Static: err.Error(), Pos: d.Pos})
+			continue
+		}
+		output.Obligations = append(output.Obligations, o)
+	}
 	output.GenSeconds = time.Since(t1).Seconds()
 	if *dumpSMT != "" {
 		os.MkdirAll(*dumpSMT, 0o755)
@@ -255,6 +274,71 @@ func loadKnown(path string) []KnownFinding {
 		fatal("known findings: %v", err)
 	}
 	return f.Findings
+}
+
+// lemmaObligation: "name(a, b float, n int): expr" (optionally prefixed by "bv ").
+func (g *Global) lemmaObligation(d PkgDecl) (*Obligation, error) {
+	text := d.Text
+	bv := false
+	if strings.HasPrefix(text, "bv ") {
+		bv = true
+		text = strings.TrimSpace(text[3:])
+	}
+	i := strings.Index(text, "):")
+	if i < 0 {
+		return nil, fmt.Errorf("lemma syntax: name(params): expr")
+	}
+	sf, err := parseSpecFn(text[:i+1]+" bool", d.Pkg, d.Pos)
+	if err != nil {
+		return nil, err
+	}
+	body := strings.TrimSpace(text[i+2:])
+	// any function of the package gives the evaluation context
+	var host *ssa.Function
+	var names []string
+	if sp := g.spkgs[d.Pkg]; sp != nil {
+		for n, m := range sp.Members {
+			if f, ok := m.(*ssa.Function); ok && f.Blocks != nil {
+				names = append(names, n)
+			}
+		}
+		sort.Strings(names)
+		if len(names) > 0 {
+			host = sp.Members[names[0]].(*ssa.Function)
+		}
+	}
+	if host == nil {
+		return nil, fmt.Errorf("no host function in package %s", d.Pkg)
+	}
+	c := newFnCtx(g, host, nil)
+	c.bv = bv
+	c.fnName = shortFnName(d.Pkg) + ".lemma:" + sf.Name
+	c.declare("cur!0", "Bool")
+	c.assertGlobal("cur!0")
+	c.declare("top!0", "Int")
+	st := &State{cur: "cur!0", heap: map[string]string{}, ghost: map[string]string{}, hbound: map[string]string{}, top: "top!0", baseTop: "top!0"}
+	c.entry = st
+	env := c.newEnv(st, st)
+	for _, p := range sf.Params {
+		srt, k := env.specSort(p.Type)
+		if srt != "" {
+			n := c.fresh("l_" + p.Name)
+			c.declare(n, srt)
+			env.vars[p.Name] = SymVal{K: k, S: n}
+			continue
+		}
+		t, err := env.typeExprText(p.Type)
+		if err != nil {
+			return nil, err
+		}
+		env.vars[p.Name] = c.freshVal(st, t, "l_"+p.Name)
+	}
+	t, err := env.evalBool(body)
+	if err != nil {
+		return nil, err
+	}
+	smt := preludeCommon + wrapDefs() + c.sb.String() + fmt.Sprintf("(assert %s)\n(assert (not %s))\n", st.cur, t)
+	return &Obligation{Name: c.fnName, Fn: c.fnName, Kind: "lemma", Props: d.Props, Clause: body, Pos: d.Pos, Backend: "smt", SMT: smt}, nil
 }
 
 func intersects(ps []string, want map[string]bool) bool {
